@@ -12,7 +12,7 @@ Proof. intros l i x H. unfold nth_z in H. destruct (i <? 0); [discriminate|]. ea
 Lemma notify_cond_unfold : forall g t fin draw g' rel canc,
   notify_completion g t fin draw = (g', Ok (rel, canc)) -> tg_conditional g t = true ->
   all_children_zero g t = false ->
-  tg_ok g = true /\ In t (tg_nodes g) /\ tg_complete g t = true /\ probs_sum_to_one g t = true /\
+  tg_ok g = true /\ In t (tg_nodes g) /\ tg_complete g t = true /\ probs_refused g t = false /\
   exists k, nth_z (tg_children g t) draw = Some k /\ rel = [k] /\
             notify_moved_beyond (tg_state g k) = false /\
             choose_loop (tg_children g t) k fin g [] = (g', Ok canc).
@@ -22,7 +22,7 @@ Proof.
   apply andb_true_iff in E1. destruct E1 as [E1 E1']. apply zmem_In in E1'.
   destruct (tg_complete g t) eqn:E2; cbn [negb] in H; [|discriminate].
   rewrite Hc, Hz in H.
-  destruct (probs_sum_to_one g t) eqn:E3; cbn [negb] in H; [|discriminate].
+  destruct (probs_refused g t) eqn:E3; [discriminate|].
   fold (nth_z (tg_children g t) draw) in H.
   destruct (nth_z (tg_children g t) draw) as [k|] eqn:E4; [|discriminate].
   destruct (notify_moved_beyond (tg_state g k)) eqn:E5; [discriminate|].
@@ -98,7 +98,7 @@ Proof.
   assert (0 <= zsum (map f l)) by (apply IH; intros c Hc; apply H; right; exact Hc). lia.
 Qed.
 Lemma resolved_unique : forall (f : Z -> Z) den l k, 0 < den -> NoDup l -> In k l ->
-  (forall c, In c l -> f c = 0 \/ f c = den) -> zsum (map f l) = den -> f k = den ->
+  (forall c, In c l -> f c = 0 \/ f c = den) -> zsum (map f l) <= den -> f k = den ->
   forall c, In c l -> c <> k -> f c = 0.
 Proof.
   intros f den l k Hden; induction l as [|x l IH]; intros ND Hk Hall Hsum Hfk c Hc Hne; [contradiction|].
@@ -162,7 +162,7 @@ Proof.
     unfold tg_children in *. destruct (al_get t (g_adj g)) as [cs|] eqn:E; [|constructor].
     apply al_get_In in E. rewrite forallb_forall in H2. specialize (H2 _ E). cbn [snd] in H2.
     apply andb_true_iff in H2. apply znodup_NoDup. tauto. }
-  unfold probs_sum_to_one in Hs. apply Z.eqb_eq in Hs.
+  unfold probs_refused, probs_rejected in Hs. apply Z.ltb_ge in Hs.
   eapply resolved_unique; eauto.
 Qed.
 
